@@ -350,4 +350,101 @@ theorem dispatch_dich (st : Static) (d d' : Defs) (ctx : RCtx) (n : AstNode) (k 
     subst h1; subst h3
     exact ⟨StEq.refl _, fun _ => ⟨rfl, rfl⟩⟩
 
+/-! ## the flag and the messages of a step depend on the state only through its values and the item's own entry -/
+
+def flagsOf (x : ItemRes) : Except String (Bool × List String) := x.map (·.2)
+
+macro "flags_tac" : tactic => `(tactic| (repeat' (first | rfl | split | (dsimp only))))
+
+theorem resolveRes_flags (st : Static) (a D : Defs) (e : StEq a D) (ctx : RCtx) (ref : Nat) (x : Expr) :
+    flagsOf (resolveRes st D ctx ref x) = flagsOf (resolveRes st a ctx ref x) := by
+  unfold resolveRes flagsOf
+  rw [resolverEval_view st e.view, e.banks, e.res]
+  flags_tac
+
+theorem resolveAlign_flags (st : Static) (a D : Defs) (e : StEq a D) (ctx : RCtx) (ref : Nat) (x : Expr) :
+    flagsOf (resolveAlign st D ctx ref x) = flagsOf (resolveAlign st a ctx ref x) := by
+  unfold resolveAlign flagsOf
+  rw [resolverEval_view st e.view, e.aligns]
+  flags_tac
+
+theorem resolveAddr_flags (st : Static) (a D : Defs) (e : StEq a D) (ctx : RCtx) (ref : Nat) (x : Expr) :
+    flagsOf (resolveAddr st D ctx ref x) = flagsOf (resolveAddr st a ctx ref x) := by
+  unfold resolveAddr flagsOf
+  rw [resolverEval_view st e.view, e.banks, e.addrs]
+  flags_tac
+
+theorem resolveAssert_flags (st : Static) (a D : Defs) (e : StEq a D) (ctx : RCtx) (x : Expr) :
+    flagsOf (resolveAssert st D ctx x) = flagsOf (resolveAssert st a ctx x) := by
+  unfold resolveAssert flagsOf
+  rw [resolverEval_view st e.view]
+  flags_tac
+
+theorem resolveLabel_flags (st : Static) (a D : Defs) (e : StEq a D) (ctx : RCtx) (ref : Nat) :
+    flagsOf (resolveLabel st D ctx ref) = flagsOf (resolveLabel st a ctx ref) := by
+  unfold resolveLabel flagsOf
+  rw [evalAddress_view e.view]
+  dsimp only
+  rw [e.sv ref]
+  flags_tac
+
+theorem resolveConstant_flags (st : Static) (a D : Defs) (e : StEq a D) (ctx : RCtx) (ref : Nat) (x : Expr)
+    (hu : (D.sym ref).resolved = false) :
+    flagsOf (resolveConstant st D ctx ref x) = flagsOf (resolveConstant st a ctx ref x) := by
+  unfold resolveConstant flagsOf
+  rw [resolverEval_view st e.view, e.su ref hu]
+  flags_tac
+
+theorem resolveInstruction_flags (st : Static) (a D : Defs) (e : StEq a D) (ctx : RCtx) (ref : Nat)
+    (hu : (D.instrs.getD ref default).resolved = false) :
+    flagsOf (resolveInstruction st D ctx ref) = flagsOf (resolveInstruction st a ctx ref) := by
+  have hall : allDefinite st D ctx = allDefinite st a ctx := by
+    funext cs; unfold allDefinite; rw [(viewEq st e.view (evalFuel - 1)).rmatches]
+  unfold resolveInstruction flagsOf
+  rw [(viewEq st e.view evalFuel).renc, e.iu ref hu, hall]
+  flags_tac
+
+theorem resolveData_flags (st : Static) (a D : Defs) (e : StEq a D) (ctx : RCtx) (ref : Nat) (sz : Option Nat) (x : Expr)
+    (hu : (D.datas.getD ref default).resolved = false) :
+    flagsOf (resolveData st D ctx ref sz x) = flagsOf (resolveData st a ctx ref sz x) := by
+  unfold resolveData dataStore flagsOf
+  rw [resolverEval_view st e.view, e.du ref hu]
+  flags_tac
+
+theorem dispatch_flags (st : Static) (a D : Defs) (e : StEq a D) (ctx : RCtx) (n : AstNode) (k : Nat)
+    (hu : markedA D n k = false) :
+    flagsOf (dispatch st D ctx n k) = flagsOf (dispatch st a ctx n k) := by
+  unfold dispatch
+  split
+  · rename_i level name kind ne ref
+    cases kind with
+    | label => exact resolveLabel_flags st a D e ctx ref
+    | constant x =>
+      refine resolveConstant_flags st a D e ctx ref x ?_
+      simpa [markedA, markedS] using hu
+  · exact resolveInstruction_flags st a D e ctx _ (by simpa [markedA, markedS] using hu)
+  · exact resolveData_flags st a D e ctx _ _ _ (by simpa [markedA, markedS] using hu)
+  · exact resolveRes_flags st a D e ctx _ _
+  · exact resolveAlign_flags st a D e ctx _ _
+  · exact resolveAddr_flags st a D e ctx _ _
+  · exact resolveAssert_flags st a D e ctx _
+  · rfl
+
+/-- **the step of a later pass, repeated on a state that differs by marks and frozen entries only** -/
+theorem dispatch_cong (st : Static) (a D : Defs) (e : StEq a D) (ctx : RCtx) (hf : ctx.first = false) (n : AstNode) (k : Nat)
+    (r : List String) (hu : markedA D n k = false) (hok : NodeOK D n)
+    (h : dispatch st a ctx n k = .ok (a, true, r)) : dispatch st D ctx n k = .ok (D, true, r) := by
+  have hfl := dispatch_flags st a D e ctx n k hu
+  rw [h] at hfl
+  cases hd : dispatch st D ctx n k with
+  | error m => rw [hd] at hfl; cases hfl
+  | ok x =>
+    obtain ⟨D', s, r'⟩ := x
+    rw [hd] at hfl
+    simp only [flagsOf, Except.map] at hfl
+    injection hfl with hfl
+    injection hfl with h1 h2
+    subst h1; subst h2
+    rw [dispatch_id st D D' ctx n k r' hf hok hd]
+
 end Casm
